@@ -472,7 +472,7 @@ func runCase(ctx context.Context, rep *mon.Reporter, rng *mon.Rand, c *Case, idx
 				rep.Count("stream_runs_in_which_one_input_value_is_assembled", 1)
 				if out.Kind == "error" && c.invokeOK && !expS.May && !expS.Must && c.concatOfInputTypeNeeded(parts) {
 					// Invoke delivers the value; the streaming run cannot put the partial structs together
-					rep.Violation("C15/invoke-stream-differ/struct-typed-input-assembled-from-several-stream-chunks",
+					rep.Violation("C15/invoke-stream-differ/successor-input-assembled-from-per-predecessor-chunks",
 						fmt.Sprintf("Invoke hands the successor %s; the streaming run (%s) of the same compiled workflow on the same input fails: %s\nevery predecessor's mapped values (and the static values) become a value of the input type on their own: %s",
 							expS.key(), []string{"Transform", "Stream", "Collect"}[sr.api], short(out.Err, 500), treesString(parts)),
 						c.witness(ordStr, "stream"))
@@ -585,9 +585,10 @@ func (c *Case) attribute(mode string, e *expectation, o *outcome) string {
 		return "any-typed-successor-receives-stream-chunk-without-values"
 	}
 	assignSite := false
-	for _, fn := range []string{"convertTo", "assignOne", "checkAndExtractToField", "checkAndExtractToMapKey", "settableFieldByName", "instantiateIfNeeded"} {
+	for _, fn := range []string{"assignOne", "checkAndExtractToField", "checkAndExtractToMapKey", "settableFieldByName", "instantiateIfNeeded"} {
 		assignSite = assignSite || strings.Contains(site, fn)
 	}
+	// (a panic raised by convertTo itself reports an error of the assignment and is named by the rules below)
 	if c.tgtThroughEmbPtr() && (assignSite || (failed && refClass == "" && (c.Struct == "" || c.Struct == fRtWithOthers) && site == "")) {
 		// raised while assigning (or an error without any finding of the reference) and a target field is promoted
 		// through an embedded pointer, which is nil in a fresh input value
